@@ -50,6 +50,18 @@ pub struct WorldCfg {
     /// after the last operation: protect/validate round trip with edited stand-off texts (C18)
     #[serde(default)]
     pub validation_phase: bool,
+    /// evaluate the query laws (C08) every n steps (0 = never), with at most query_budget evaluations each time
+    #[serde(default)]
+    pub queries_every: usize,
+    #[serde(default)]
+    pub query_budget: usize,
+    /// shapes that are quarantined because of listed findings, enabled by name ("optional", "indirect",
+    /// "multisel"); a finding's replay file carries the flag it needs
+    #[serde(default)]
+    pub query_flags: Vec<String>,
+    /// C08: issue annotate / remove requests as ADD / DELETE queries when they have an equivalent one
+    #[serde(default)]
+    pub mutate_via_query: bool,
 }
 
 #[derive(Clone, Debug, Serialize, Deserialize, PartialEq)]
@@ -88,6 +100,10 @@ impl Default for WorldCfg {
             replicas: Vec::new(),
             oracles: None,
             validation_phase: false,
+            queries_every: 0,
+            query_budget: 0,
+            query_flags: Vec::new(),
+            mutate_via_query: false,
         }
     }
 }
@@ -151,6 +167,8 @@ pub struct World {
     pub restart_count: usize,
     /// when false the oracles are not evaluated (used to build stores for other engines)
     pub checks: bool,
+    /// reach counters of the query laws, moved into the run's statistics after every step
+    pub query_probes: BTreeMap<&'static str, usize>,
 }
 
 pub fn adversarial_pool() -> Vec<String> {
@@ -175,6 +193,7 @@ impl World {
             id_pool: adversarial_pool(),
             restart_count: 0,
             checks: true,
+            query_probes: BTreeMap::new(),
         }
     }
 
@@ -250,6 +269,7 @@ impl World {
         } else {
             None
         };
+        let mut via_query: Option<String> = None;
         let result = if let Op::Restart { format } = op {
             stats.restarts += 1;
             self.restart_count += 1;
@@ -266,7 +286,20 @@ impl World {
                 Err(p) => ExecResult::Panic(p),
             }
         } else {
-            exec_direct(&mut self.store, &pre, op)
+            // C08: the same request as an ADD / DELETE query, when it has one and must succeed
+            let routed = if self.cfg.mutate_via_query && matches!(expected, Outcome::Ok { .. }) {
+                crate::c08::exec_via_query(&mut self.store, &pre, op)
+            } else {
+                None
+            };
+            match routed {
+                Some((text, r)) => {
+                    stats.probe("c08.mutation_routed_via_query");
+                    via_query = Some(text);
+                    r
+                }
+                None => exec_direct(&mut self.store, &pre, op),
+            }
         };
         *stats
             .outcomes
@@ -375,6 +408,9 @@ impl World {
             self.model = sequential.clone().unwrap();
         }
         let mut found = self.check_state_opt(stepno, pre_dump.is_some());
+        for (k, v) in std::mem::take(&mut self.query_probes) {
+            *stats.probes.entry(k).or_insert(0) += v;
+        }
         if matches!(expected, Outcome::Err | Outcome::NoopEither) && !tolerate_nonatomic {
             // whatever differs now was caused by the request that should have changed nothing
             let owner = if removal { "C02" } else { "C14" };
@@ -427,6 +463,18 @@ impl World {
             }
         }
         violations.append(&mut found);
+        if let Some(text) = via_query {
+            // whatever is wrong after a request that went through query_mut is a difference between the query and the direct call
+            for v in violations.iter_mut() {
+                if v.owner != "C08" {
+                    // (the query laws are about the state, not about how the last request was issued)
+                    v.also = Some(v.owner);
+                    v.owner = "C08";
+                    v.key = format!("via_query:{}", v.key);
+                    v.detail = format!("{} [request issued as: {}]", v.detail, text);
+                }
+            }
+        }
         if self.cfg.probes && violations.is_empty() {
             stats.probe_log.push(crate::obs::probe_answers(&self.store, &self.model));
         }
@@ -479,6 +527,9 @@ impl World {
             }
             if c.out.is_empty() && self.cfg.related_every > 0 && stepno % self.cfg.related_every == 0 {
                 c.check_related_text(crate::rng::label_hash("related") ^ (stepno as u64));
+            }
+            if c.out.is_empty() && self.cfg.queries_every > 0 && stepno % self.cfg.queries_every == 0 {
+                c.check_queries(crate::rng::label_hash("queries") ^ (stepno as u64), self.cfg.query_budget.max(50), &self.cfg.query_flags, &mut self.query_probes);
             }
         }
         let mut out = c.out;
@@ -735,6 +786,10 @@ pub fn attribute(trace: &Trace, result: RunResult) -> RunResult {
         _ => None,
     });
     let Some(format) = last_restart else { return result };
+    // the query laws sample by step number, so the history without restarts asks other queries: no attribution
+    if result.violations.iter().all(|v| v.owner == "C08" && !v.key.starts_with("via_query:")) {
+        return result;
+    }
     let mut without = trace.clone();
     without.ops.truncate(step + 1);
     without.ops.retain(|op| !matches!(op, Op::Restart { .. }));
